@@ -45,41 +45,7 @@ func checkC16(c *Ctx) {
 	c.Floor("C16.R4", 4)
 }
 
-func (a *c16) fn(name string) (*types.Func, *ast.FuncDecl) {
-	f := a.c.P.Func("encoding/shp", name)
-	return f, a.c.P.Decl(f)
-}
-
-func selOrIdent(e ast.Expr) ast.Expr {
-	e = unparen(e)
-	if sel, ok := e.(*ast.SelectorExpr); ok {
-		return sel.Sel
-	}
-	return e
-}
-
 // ---------------------------------------------------------------- R2
-
-func stripIntConv(info *types.Info, e ast.Expr) ast.Expr {
-	e = unparen(e)
-	if call, ok := e.(*ast.CallExpr); ok && len(call.Args) == 1 {
-		if tv, ok := info.Types[call.Fun]; ok && tv.IsType() {
-			return unparen(call.Args[0])
-		}
-	}
-	return e
-}
-
-func mentionsIndexBy(info *types.Info, e ast.Node, idx types.Object) bool {
-	found := false
-	ast.Inspect(e, func(n ast.Node) bool {
-		if ix, ok := n.(*ast.IndexExpr); ok && idx != nil && objOf(info, ix.Index) == idx {
-			found = true
-		}
-		return !found
-	})
-	return found
-}
 
 func (a *c16) matching() {
 	c := a.c
